@@ -262,6 +262,26 @@ def run_case_full(case, scratch):
         if a != b:
           vs.append({'class': 'together-vs-alone', 'key': 'rows',
                      'message': '%s requested with %s returned %s, alone %s' % (p, preds, b[1][:8], a[1][:8])})
+      # the execution object of the LAST requested predicate, built on the program that had
+      # already compiled the others, handed over alone (a notebook compiles several predicates
+      # on one LogicaProgram and runs one)
+      p = preds[-1]
+      w = sqlworld.World()
+      try:
+        res2, _, _ = run_recorded(comp, [p], w, 'silent')
+        info['statements'] += len(w.statements)
+        a = (res2[p][0], sqlworld.rows_key(res2[p][1]))
+        b = (res[p][0], sqlworld.rows_key(res[p][1]))
+        if a != b:
+          vs.append({'class': 'together-vs-alone', 'key': 'later-execution-alone',
+                     'message': '%s compiled after %s on one program and run alone returned %s, together %s' % (
+                         p, preds[:-1], a[1][:8], b[1][:8])})
+      except sqlworld.TooExpensive:
+        raise
+      except Exception as e:
+        vs.append({'class': 'engine-error', 'key': type(e).__name__,
+                   'message': 'fault-free run of %s alone (execution built after %s on the same program) failed: %s: %s' % (
+                       p, preds[:-1], type(e).__name__, str(e)[:200])})
   except sqlworld.TooExpensive:
     info['discard'] = 'statement exceeded VM step budget'
     return [], info
